@@ -91,12 +91,13 @@ func Restore(walletPath, mnemonic string, mintsToRestore []string) (uint64, erro
 			}
 
 			walletKeyset := crypto.WalletKeyset{
-				Id:         keyset.Id,
-				MintURL:    mint,
-				Unit:       keyset.Unit,
-				Active:     keyset.Active,
-				PublicKeys: keysetKeys,
-				Counter:    counter,
+				Id:          keyset.Id,
+				MintURL:     mint,
+				Unit:        keyset.Unit,
+				Active:      keyset.Active,
+				PublicKeys:  keysetKeys,
+				Counter:     counter,
+				InputFeePpk: keyset.InputFeePpk,
 			}
 
 			if err := db.SaveKeyset(&walletKeyset); err != nil {
